@@ -127,13 +127,20 @@ def ensure_facts(all_targets=False, repo=REPO, tag=""):
     fcntl.flock(lock, fcntl.LOCK_EX)
     try:
         if os.path.exists(os.path.join(d, "DONE")):
+            try:
+                os.utime(d, None)      # LRU stamp for the bounded self-test cache
+            except OSError:
+                pass
             return d, stamp, True
         if os.path.isdir(d):
             shutil.rmtree(d)
-        # keep the cache small: drop all other fact dirs of the same kind
-        for other in os.listdir(base):
-            if other.endswith("-" + kind) and other != os.path.basename(d):
-                shutil.rmtree(os.path.join(base, other), ignore_errors=True)
+        # keep the cache small: drop all other fact dirs of the same kind (the self-test slot keeps the most recent
+        # `P2P_SELFTEST_CACHE` patched trees so that several properties can share one extraction)
+        keep = int(os.environ.get("P2P_SELFTEST_CACHE", "24")) if tag else 0
+        others = [o for o in os.listdir(base) if o.endswith("-" + kind) and o != os.path.basename(d)]
+        others.sort(key=lambda o: os.path.getmtime(os.path.join(base, o)), reverse=True)
+        for other in others[keep:]:
+            shutil.rmtree(os.path.join(base, other), ignore_errors=True)
         t0 = time.time()
         extract(repo, d, stamp, all_targets, log=os.path.join(base, "last-%s.log" % kind))
         have = {f.split(".")[0] for f in os.listdir(d) if f.endswith(".jsonl")}
